@@ -32,6 +32,7 @@ func relayStreamCase(c *Ctx, idx int) Case {
 	w := newWorld()
 	n := 1 + c.Rng.Intn(4)
 	changed := false
+	sentAll, seenAll := map[string][]byte{}, map[string][]byte{}
 	for i := 0; i < n; i++ {
 		from := "A"
 		if c.Rng.Intn(2) == 0 {
@@ -103,9 +104,11 @@ func relayStreamCase(c *Ctx, idx int) Case {
 			ob = append(ob, f.Bytes()...)
 			specs = append(specs, fmt.Sprintf("r%d:%s", f.Flag, payloadHex(f.Body)))
 		}
-		if !bytes.Equal(ob, honest) {
-			changed = true
-		}
+		// what counts is the whole transcript of the direction (an empty frame inserted by one edit and
+		// an empty message swallowed by a later one leave the receiver with exactly what was sent)
+		sentAll[to] = append(sentAll[to], honest...)
+		seenAll[to] = append(seenAll[to], ob...)
+		changed = !bytes.Equal(sentAll["A"], seenAll["A"]) || !bytes.Equal(sentAll["B"], seenAll["B"])
 		w.pending[to] = nil
 		w.ep(to).c.Feed(ob)
 		w.log(strings.TrimRight("wire "+to+" "+strings.Join(specs, " "), " "), "ok")
